@@ -76,6 +76,38 @@ func main() {
 		go func() { schedDone <- runSchedules(r) }()
 	}
 
+	// (b) first: it is small and must not be starved by the iterative deepening of (a) when the budget is tight
+	if has('b') {
+		depth := 4
+		cfgs := []cfg{{true, pruneNothing, true}, {false, pruneRecent1, true}, {true, pruneEverything, true}, {false, pruneNothing, false}}
+		if r.Thorough() {
+			depth = 5
+			cfgs = append(cfgs, cfg{true, pruneRecent1, false}, cfg{false, pruneEverything, false})
+		}
+		t0 := time.Now()
+		col := &collector{}
+		cn := &counters{}
+		for _, c := range cfgs {
+			crashRootmulti(r, c, depth, col, cn)
+		}
+		col.report(r, "b1")
+		col2 := &collector{}
+		cn2 := &counters{}
+		for _, c := range cfgs {
+			crashDirect(r, c, depth, col2, cn2)
+		}
+		col2.report(r, "b2")
+		r.EvalN(cn.transitions.Load() + cn2.transitions.Load())
+		transitions += cn.transitions.Load() + cn2.transitions.Load()
+		r.OutcomeN("b1:crash-points(production wiring)", cn.transitions.Load())
+		r.OutcomeN("b2:crash-points(direct wiring, incl. inside rebuild)", cn2.transitions.Load())
+		r.OutcomeN("b:reads-compared", cn.reads.Load()+cn2.reads.Load())
+		cov["b_crash_points"] = map[string]any{"history_depth": depth, "configs": len(cfgs),
+			"production_wiring": map[string]any{"histories": cn.histories.Load(), "crash_points_x_reopen_modes": cn.transitions.Load(), "reads_compared": cn.reads.Load()},
+			"direct_wiring":     map[string]any{"histories": cn2.histories.Load(), "crash_points": cn2.transitions.Load(), "reads_compared": cn2.reads.Load(), "views": cn2.views.Load()},
+			"wall_s":            time.Since(t0).Seconds()}
+	}
+
 	if has('a') {
 		depth := 6
 		cfgs := []cfg{
@@ -132,37 +164,6 @@ func main() {
 			"distinct_states": cn.states.Load(), "reads_compared": cn.reads.Load(), "version_views": cn.views.Load(), "wall_s": time.Since(t0).Seconds()}
 		cov["depth"] = doneDepth
 		r.Sample(map[string]any{"part": "a", "config": cfgs[0].String(), "history": "Sa C T Sa C T  (index on: commit; off: overwrite a; on again: rebuild sits in the collector, query snapshot still holds the old stamp)"})
-	}
-
-	if has('b') {
-		depth := 4
-		cfgs := []cfg{{true, pruneNothing, true}, {false, pruneRecent1, true}, {true, pruneEverything, true}, {false, pruneNothing, false}}
-		if r.Thorough() {
-			depth = 5
-			cfgs = append(cfgs, cfg{true, pruneRecent1, false}, cfg{false, pruneEverything, false})
-		}
-		t0 := time.Now()
-		col := &collector{}
-		cn := &counters{}
-		for _, c := range cfgs {
-			crashRootmulti(r, c, depth, col, cn)
-		}
-		col.report(r, "b1")
-		col2 := &collector{}
-		cn2 := &counters{}
-		for _, c := range cfgs {
-			crashDirect(r, c, depth, col2, cn2)
-		}
-		col2.report(r, "b2")
-		r.EvalN(cn.transitions.Load() + cn2.transitions.Load())
-		transitions += cn.transitions.Load() + cn2.transitions.Load()
-		r.OutcomeN("b1:crash-points(production wiring)", cn.transitions.Load())
-		r.OutcomeN("b2:crash-points(direct wiring, incl. inside rebuild)", cn2.transitions.Load())
-		r.OutcomeN("b:reads-compared", cn.reads.Load()+cn2.reads.Load())
-		cov["b_crash_points"] = map[string]any{"history_depth": depth, "configs": len(cfgs),
-			"production_wiring": map[string]any{"histories": cn.histories.Load(), "crash_points_x_reopen_modes": cn.transitions.Load(), "reads_compared": cn.reads.Load()},
-			"direct_wiring":     map[string]any{"histories": cn2.histories.Load(), "crash_points": cn2.transitions.Load(), "reads_compared": cn2.reads.Load(), "views": cn2.views.Load()},
-			"wall_s":            time.Since(t0).Seconds()}
 	}
 
 	if has('c') {
